@@ -221,6 +221,25 @@ both_families! {
 			}
 			let got2 = String::from_utf8_lossy(buf2.as_bytes()).to_string();
 			ensure!(got2 == exp_text, "fresh-handle-text", "{:?}: after {:?} with a fresh handle per call the text is {:?}, expected {:?}", initial, $ops, got2, exp_text);
+			// --- the public `unsafe AuthorityMut::new(buffer, start, end)` route on a plain Vec<u8> holding the same text
+			// (the range is the authority of a valid reference, so the safety contract holds): same result
+			{
+				let start = parts0.scheme.as_ref().map(|x| x.len() + 1).unwrap_or(0) + 2;
+				let end = start + a0.len();
+				let mut raw: Vec<u8> = initial.as_bytes().to_vec();
+				let r = guard(|| {
+					let mut h = unsafe { AuthorityMut::new(&mut raw, start, end) };
+					for op in $ops.iter() { apply(&mut h, op) }
+					h.as_authority().as_str().to_string()
+				});
+				match r {
+					Err(p) => fail!(format!("panic-raw-route:{}", p.loc), "{:?}: calls {:?} through `unsafe AuthorityMut::new(vec, {}, {})` panicked at {}: {}", initial, $ops, start, end, p.loc, p.msg),
+					Ok(view) => {
+						let got3 = String::from_utf8_lossy(&raw).to_string();
+						ensure!(got3 == exp_text && Some(&view) == expected.authority.as_ref(), "raw-route-text", "{:?}: after {:?} through `unsafe AuthorityMut::new(vec, {}, {})` the text is {:?} (handle view {:?}), expected {:?}", initial, $ops, start, end, got3, view, exp_text);
+					}
+				}
+			}
 			$cx.obs(4);
 			Ok(true)
 		}};
